@@ -367,6 +367,10 @@ def gen_world(rng, pr):
                 others = [v for v in ord_vars if v != v1]
                 if not others:
                     continue
+                if rng.random() < 0.6 and info[t][0] + 2 <= pr.max_depth:
+                    # make sure the pair really differs in an int/float spelling: c * T(x) and c.0 * T(y)
+                    cint = add({"op": "Constant", "value": rng.choice([2, 3, -1, 4, -2])})
+                    t = add({"op": "Multiply"}, [cint, t] if rng.random() < 0.5 else [t, cint])
                 t2 = mirror(t, {v1: rng.choice(others)}, {})
                 ks = [t, t2] + ([pick_kid()] if rng.random() < 0.3 else [])
                 rng.shuffle(ks)
@@ -409,6 +413,16 @@ def gen_world(rng, pr):
             # anything keyed by printed form confuses the two)
             other = "NthRoot" if node["op"] == "NthPower" else "NthPower"
             twin = add({"op": other, "n": node["n"]}, kids)
+            if rng.random() < 0.4:
+                # the same pair over a constant: both fold to (different) constants during simplification
+                cc = add({"op": "Constant", "value": rng.choice([2, 3, 4, 16, 0.5, 2.0, 10])})
+                nn = rng.choice([2, 3, 4, 2])
+                a1 = add({"op": "NthPower", "n": nn}, [cc])
+                a2 = add({"op": "NthRoot", "n": nn}, [cc])
+                xv = var_ids[rng.choice(ord_vars)] if ord_vars else cc
+                wrap = rng.choice(["Multiply", "Add"])
+                pr.interesting.append(add({"op": wrap}, [a1, xv]))
+                pr.interesting.append(add({"op": wrap}, [a2, xv]))
             if rng.random() < 0.6:
                 # and a pair of equally shaped parents over the two twins
                 wrap = rng.choice(["Multiply", "Add", "Sine", "Exponential"])
